@@ -44,10 +44,17 @@ pub fn create_fdt_cache_control(cc: &CacheControl, now: SystemTime) -> fdtinstan
             value: fdtinstance::CacheControlChoice::MaxStale(Some(true)),
         },
         CacheControl::Expires(duration) => {
-            let expires = now + *duration;
-            let ntp = tools::system_time_to_ntp(expires).unwrap_or_default();
+            // `now + duration` panics when the sum is not representable (e.g. `Duration::MAX`):
+            // such an entry expires at the latest instant the 32-bit field can carry
+            let expires = match now.checked_add(*duration) {
+                Some(expires) => {
+                    let ntp = tools::system_time_to_ntp(expires).unwrap_or_default();
+                    (ntp >> 32) as u32
+                }
+                None => u32::MAX,
+            };
             fdtinstance::CacheControl {
-                value: fdtinstance::CacheControlChoice::Expires((ntp >> 32) as u32),
+                value: fdtinstance::CacheControlChoice::Expires(expires),
             }
         }
         CacheControl::ExpiresAt(timestamp) => {
